@@ -14,6 +14,12 @@ class HasSqrt (α : Type) where
 
 instance : HasSqrt Float := ⟨Float.sqrt⟩
 
+/-- Go's `float64(i)` for an `int` value. -/
+class HasOfInt (α : Type) where
+  ofInt : Int → α
+
+instance : HasOfInt Float := ⟨Float.ofInt⟩
+
 /-- The libm functions a translated function may call.  Uninterpreted in theorems; at run time `Float`'s own
 (C libm — NOT bit-compatible with Go's pure-Go `math` package, so generated definitions that use them are
 excluded from the bit-for-bit translation validation and are tied by theorems only). -/
